@@ -36,6 +36,13 @@ def gen_cases(ck):
                       "param_mode": "random", "noise": float(ck.rng.choice([0.0, 0.0, 0.02])), "fit": ["dlite", "taubinSVD"][int(ck.rng.integers(2))],
                       "kind": kind, "t_angle": float(ck.rng.uniform(0, 2 * math.pi)), "t_scale": float(10.0 ** ck.rng.uniform(-3, 3)),
                       "t_shift": [float(ck.rng.normal() * 10.0 ** ck.rng.uniform(0, 4)), float(ck.rng.normal() * 10.0 ** ck.rng.uniform(0, 4))]})
+    for i in range(4 if ck.tier == "quick" else 16):
+        # axis-parallel lattices of straight two-point interfaces: tangents with exactly vanishing components in the original
+        # pose, generic ones after the rotation
+        cases.append({"type": "static", "seed": int(ck.rng.integers(1 << 30)), "tissue": ["brick", "square"][i % 2], "nx": int(ck.rng.integers(2, 5)),
+                      "ny": int(ck.rng.integers(2, 5)), "subset": None, "mobius": False, "kmin": 0, "kmax": 0, "param_mode": "uniform", "noise": 0.0,
+                      "fit": "dlite", "kind": ["rotate", "all"][(i // 2) % 2], "t_angle": float(ck.rng.uniform(0.2, 1.3)), "t_scale": float(10.0 ** ck.rng.uniform(-2, 2)),
+                      "t_shift": [float(ck.rng.normal() * 10), float(ck.rng.normal() * 10)]})
     for i in range(6 if ck.tier == "quick" else 40):
         cases.append({"type": "units", "seed": int(ck.rng.integers(1 << 30)), "tissue": ["random", "jitter"][int(ck.rng.integers(2))],
                       "sites": int(ck.rng.integers(24, 46)), "subset": None, "min_ridge": 0.005, "mobius": True, "strength": 1.0, "kmin": 1, "kmax": 4,
@@ -85,7 +92,10 @@ def run_static_case(ck, case, reqs, pending):
     pa = physical.run_static(a, fit=fit, pressure=True)
     pb = physical.run_static(b, fit=fit, pressure=True)
     ck.count("kind_" + case["kind"])
-    if pa.tension is None or pb.tension is None:
+    if (pa.tension is None) != (pb.tension is None):
+        ck.fail("the transformed tissue has the same equations", f"original pose: {len(pa.rowmap)} junctions with equations, transformed: {len(pb.rowmap)}", case)
+        ck.case(case); return
+    if pa.tension is None:
         ck.count("rejected_no_equations"); return
     noisy = case.get("noise", 0.0) > 0
     # mirrored tangents can only be recognised against a closed-form tangent (equilibrium tissues)
